@@ -388,6 +388,85 @@ pub fn run_c16(ctx: &Ctx) -> i32 {
             }
         }
     });
+    // (3b) metadata blocks of EVERY type tag (0 = a second STREAMINFO ... 127 = the forbidden tag)
+    // with payloads that are a copy of the stream's own STREAMINFO body, all-zero / all-ones /
+    // random bodies of the STREAMINFO length, and other lengths - as the last block and ahead of
+    // an application block - and every single-bit flip of the metadata region of such a stream.
+    // The frames are untouched: the parser may refuse or accept, must not panic, and what it
+    // accepts must decode to the original audio.
+    let b6 = Arc::clone(&bases);
+    run_cases(ctx, "metablocks", bases.len() as u64 * 128, &mut out, |idx, out| {
+        let base = &b6[(idx / 128) as usize];
+        let tag = (idx % 128) as u8;
+        if base.audio_offset != 42 {
+            return;
+        }
+        let mut rng = Rng::for_case(ctx.seed, "C16.metablocks", idx);
+        let body = base.bytes[8..42].to_vec();
+        let payloads: Vec<(&str, Vec<u8>)> = vec![
+            ("own STREAMINFO body", body.clone()),
+            ("34 zero bytes", vec![0u8; 34]),
+            ("34 0xFF bytes", vec![0xFFu8; 34]),
+            ("34 random bytes", (0..34).map(|_| rng.next_u64() as u8).collect()),
+            ("empty", vec![]),
+            ("1 byte", vec![0x5A]),
+            ("33 bytes", body[..33].to_vec()),
+            ("35 bytes", body.iter().cloned().chain([0u8]).collect()),
+            ("100 random bytes", (0..100).map(|_| rng.next_u64() as u8).collect()),
+        ];
+        let assemble = |blocks: &[(u8, &[u8])]| -> Vec<u8> {
+            let mut d = b"fLaC".to_vec();
+            d.push(if blocks.is_empty() { 0x80 } else { 0x00 });
+            d.extend_from_slice(&[0, 0, 34]);
+            d.extend_from_slice(&body);
+            for (i, (t, pl)) in blocks.iter().enumerate() {
+                d.push(t | if i + 1 == blocks.len() { 0x80 } else { 0 });
+                d.extend_from_slice(&(pl.len() as u32).to_be_bytes()[1..]);
+                d.extend_from_slice(pl);
+            }
+            d.extend_from_slice(&base.bytes[base.audio_offset..]);
+            d
+        };
+        for (pname, pl) in &payloads {
+            for shape in 0..3 {
+                let app: &[u8] = &[1, 2, 3, 4, 5, 6];
+                let blocks: Vec<(u8, &[u8])> = match shape {
+                    0 => vec![(tag, pl.as_slice())],
+                    1 => vec![(tag, pl.as_slice()), (2, app)],
+                    _ => vec![(2, app), (tag, pl.as_slice())],
+                };
+                let data = assemble(&blocks);
+                let r = parse_and_classify(&data, &base.pcm);
+                out.distinct.insert((1 << 58) | (idx << 8) | (shape << 4) as u64 | (pl.len() as u64 & 15));
+                report(ctx, "metablocks", idx, base, &format!("metadata block of type {tag} ({pname}) {}", ["as the only added block", "ahead of an application block", "behind an application block"][shape]), r, out);
+            }
+        }
+        // every single-bit flip of the metadata region of one such stream per (base, tag % 8)
+        if tag < 8 {
+            let app: &[u8] = &[9, 8, 7];
+            let t2 = [1u8, 2, 3, 4, 5, 6, 126, 4][tag as usize];
+            let blocks: Vec<(u8, &[u8])> = vec![(t2, payloads[tag as usize].1.as_slice()), (2, app)];
+            let mut data = assemble(&blocks);
+            let meta_end = data.len() - (base.bytes.len() - base.audio_offset);
+            for bit in 32..meta_end * 8 {
+                data[bit / 8] ^= 0x80 >> (bit % 8);
+                out.evaluations += 1;
+                let r = catch(|| match flacenc::component::parser::stream::<NomErr<'_>>(&data) {
+                    Ok((_, s)) => {
+                        let _ = decode_all(&s);
+                        true
+                    }
+                    Err(_) => false,
+                });
+                match r {
+                    Ok(true) => out.count("metadata_flips_accepted"),
+                    Ok(false) => out.count("rejected"),
+                    Err(p) => out.violation(format!("C16|panic|{}", p.site()), format!("metadata region (type {t2} block + application block): flip bit {bit}: {} (base: {})", p.short(), base.desc), json!({"monitor": "C16", "sub": "metablocks", "index": idx, "seed": ctx.seed, "tier": ctx.tier.name(), "case": {"bit": bit}})),
+                }
+                data[bit / 8] ^= 0x80 >> (bit % 8);
+            }
+        }
+    });
     // (4) random byte strings and random splices of valid frames
     let n = ctx.tier.pick(600_000, 40_000_000);
     let b5 = Arc::clone(&bases);
@@ -509,7 +588,7 @@ pub fn run_c16(ctx: &Ctx) -> i32 {
     });
     let fin = Finish {
         level: "fault_enumeration",
-        rule: "small emitted streams (one per subframe type / width / stereo mode, 2-4 frames of 32-192 samples) are corrupted: EVERY single-bit flip of the frame region (all bases), every burst pattern of length 2..=8 with first and last bit set (127 patterns) at every bit offset, every non-zero XOR byte at every byte, truncation at every byte, plus random byte strings / splices / fake headers / random edits; parser::stream must return Err or Ok without panicking, and an accepted altered stream must Decode to the original audio (anything else = altered content accepted); distinct = distinct (base, position, pattern)",
+        rule: "small emitted streams (one per subframe type / width / stereo mode, 2-4 frames of 32-192 samples) are corrupted: EVERY single-bit flip of the frame region (all bases), every burst pattern of length 2..=8 with first and last bit set (127 patterns) at every bit offset, every non-zero XOR byte at every byte, truncation at every byte, metadata blocks of every type tag 0..=127 with STREAMINFO-shaped and other payloads (and every bit flip of such a metadata region), plus random byte strings / splices / fake headers / random edits; parser::stream must return Err or Ok without panicking, and an accepted altered stream must Decode to the original audio (anything else = altered content accepted); distinct = distinct (base, position, pattern)",
         assumptions: vec!["truncation exactly at a frame boundary yields a valid shorter stream and may be accepted".into()],
         exhaustive: Some(ctx.only.is_none()),
         floors: vec![("mutated inputs rejected".into(), out.stats.get("rejected").copied().unwrap_or(0), 10_000)],
